@@ -55,6 +55,9 @@ func (s *stack) probe(blk *block.Block) (trunk bool, stateWrites int, ok bool) {
 // would-be best block has been committed (before the index-trie write, or before the block bulk). Returns false if
 // blk is not importable right now.
 func (s *stack) crashDeliver(blk *block.Block, atBulk bool) bool {
+	if s.dead {
+		return false
+	}
 	w := s.w
 	trunk, nState, ok := s.probe(blk)
 	if !ok {
@@ -130,6 +133,9 @@ func runCrash(rec *recorder, seed int64, blocks, nq, run int) ([]trace.Ev, runSt
 
 	// deliver with a chance of dying in the middle
 	give := func(blk *block.Block) {
+		if s.dead {
+			return
+		}
 		if s.has(blk) || !s.has(w.blocks[blk.Header().ParentID()]) {
 			s.deliver(blk)
 			return
